@@ -47,6 +47,9 @@ def run(repo, res, tier):
     res.assumptions = ["int()/float() acceptance languages (Python language reference)", "_strptime.TimeRE directive patterns",
                        "dateutil is absent from the interpreter that runs pvl (OmniDecoder falls back to ValueError)"]
     rule_g1(repo, res)
+    from .. import effects as _eff
+    _eff.rule_memo(repo, res)
+    _eff.rule_shared_class_state(repo, res)
     from .. import hookrules as _hk
     _hk.rule_token_init(repo, res)
     an = langrules.analyse(repo)
